@@ -414,7 +414,7 @@ func (g *gen) declType(form int) *Ty {
 			shapes := []string{"%s", "[]%s", "*%s", "map[string]%s", "func(%s)", "chan %s", "[2]%s", "[]%s", "%s"}
 			k := g.intn(1, 4, "arity")
 			var a, b []string
-			same := !g.include("unify-cyclic-binding")
+			same := !g.include("unify-max-depth-exceeded")
 			for i := 0; i < k; i++ {
 				sa := pick(g, "shapeA", shapes...)
 				sb2 := pick(g, "shapeB", shapes...)
